@@ -292,7 +292,7 @@ def verdict(r):
     bad = [k for k in o["kernels"] if k["ok"] is False]
     if bad:
         k = bad[0]
-        what = "if-unexpected-kernel" if k.get("unexpected") else "if-wrong-value"
+        what = "if-restriction-lost" if k.get("restriction_lost") else "if-unexpected-kernel" if k.get("unexpected") else "if-wrong-value"
         return "fail", {"what": what, "kernel": k["key"].split("/")[0]}, \
             "the kernel %s is not (part of the integrand at the common physical point) x (surface element): %s" % (k["key"], json.dumps(k.get("info")))
     if any(k["ok"] is None for k in o["kernels"]):
